@@ -65,7 +65,7 @@ CLAIMED = {
           "the theorems are about the server model (int64 sizes are unbounded naturals there: a wrap-around of the size arithmetic is the correspondence's to catch)"),
  "C07": C("C07_data_cut / C07_eof_complete proved: for every cut point, limit and schedule no read reports EOF unless a complete terminated "
           "message was consumed; chunked transfers on the server model: C07_bdat_eof_only_after_last (an accepted BDAT records a clean end of file only if it carried LAST and "
-          "its copy was complete), C07_abandoned_is_reset / C07_reset_close_no_eof (reset() and Close() end a running transfer with ErrDataReset, never EOF); every cut "
+          "its copy was complete), C07_abandoned_is_reset / C07_reset_close_no_eof (reset() and Close() end a running transfer with ErrDataReset, never EOF), C07_cut_connection_no_eof (a connection that ends while no line feed is pending - e.g. inside the BDAT 0 LAST line that would have completed the message - records no end of file for any delivery; repaired in e062bf7); every cut "
           "offset of 6 conversations (DATA, BDAT, LMTP) replayed on the real server with propagating backends.",
           "DESIGN.md 7 C07", "Lean 4 proof (DATA reader, chunked transfers on the server model) + every-cut-point correspondence (dr, conv probes)",
           "the fuel of the model's chunk copy is assumed adequate in C07_bdat_eof_only_after_last (adequacy is proved for the DATA path and for C05's framing on live wires)"),
